@@ -134,7 +134,8 @@ def build(tier, seed):
         return run
     for nm in names:
         obs.append(Ob(f"C08.inverse[{nm}]", "proof", FNI, inverse_ob(nm),
-                      f"circuit '{nm}': U(inverse) = U^dagger, inverse twice = original action, c + c.inverse() = I (unitary gates), same width; all real parameters", timeout=600))
+                      f"circuit '{nm}': U(inverse) = U^dagger, inverse twice = original action, c + c.inverse() = I (unitary gates), same width; all real parameters", timeout=600,
+                      fallback=vprop.enum_ob("x", [], lambda: [0, 3], _check_native, "").run))
 
     def controlled_ob(name):
         def run():
@@ -164,7 +165,8 @@ def build(tier, seed):
         return run
     for nm in names:
         obs.append(Ob(f"C08.controlled[{nm}]", "proof", FNC, controlled_ob(nm),
-                      f"circuit '{nm}': for every control position k, controlled(k) = identity when the control is 0 and the original circuit on the remaining qubits (shifted) when 1; width n+1", timeout=900))
+                      f"circuit '{nm}': for every control position k, controlled(k) = identity when the control is 0 and the original circuit on the remaining qubits (shifted) when 1; width n+1", timeout=900,
+                      fallback=vprop.enum_ob("x", [], lambda: [1], _check_native, "").run))
 
     def generators():
         L = circ_m.Layer()
@@ -231,7 +233,7 @@ def build(tier, seed):
     # ---- all circuit lengths / widths / control positions: structure over the abstract gate model (Engine V)
     from vfw import cmodel, vcontract as vc
     cs = cmodel.contracts()
-    fbn = vprop.enum_ob("x", [], lambda: range(2), _check_native, "").run
+    fbn = vprop.enum_ob("x", [], lambda: [0, 1, 3], _check_native, "").run
 
     def setup_self(args, ns):
         args["self"] = cmodel.mk_circuit(ns, "self")
@@ -244,7 +246,7 @@ def build(tier, seed):
                            obid="C08.controlled.all_lengths.contract", timeout_ms=30000, replay_code=cmodel.replay("controlled"),
                            desc="for circuits of ANY length and EVERY control index: width max(n,k)+1, operation j = gate_j.controlled(1) on (k, qubits of op j with indices >= k shifted by one), "
                                 "same order; the shift never produces k (loop invariant)"))
-    obs.append(vprop.enum_ob("C08.native.enum", FNI + FNC + [GEN + ":create_layer_of_gates"], lambda: range(3), _check_native,
+    obs.append(vprop.enum_ob("C08.native.enum", FNI + FNC + [GEN + ":create_layer_of_gates"], lambda: range(4), _check_native,
                              "bounded: native numeric inverse / controlled on a 4-qubit circuit with every control position; i-th parameter row on qubit i for layers up to 2000 qubits "
                              "(CPython set order)", exhaustive=False, timeout=900))
     return obs
@@ -311,6 +313,32 @@ def _check_native(mode):
     if mode == 1:
         ok, obs = replay.run_code(_native("controlled"))
         return ok is True, obs
+    if mode == 3:
+        # inverse gate by gate: every gate family with generic (pairwise different) angles, custom gates that are complex-symmetric / non-unitary / hermitian,
+        # bare, inside a circuit and under a control: the inverse circuit's matrix is the conjugate transpose, circuit + inverse is the identity, twice is the original
+        import sympy
+        from orquestra.quantum.circuits import Circuit, CustomGateDefinition, _builtin_gates as B
+        cust = lambda nm, rows: CustomGateDefinition(nm, sympy.Matrix(rows), ())()
+        I_ = sympy.I
+        gates = [B.U3(0.3, 0.5, 1.1), B.U3(2.2, -0.7, 0.4), B.RX(0.37), B.RY(-1.2), B.RZ(2.5), B.RH(0.8), B.PHASE(0.9), B.CPHASE(1.3), B.XX(0.6), B.YY(-0.4), B.ZZ(1.9), B.XY(0.77),
+                 B.GPi(0.3), B.GPi2(1.2), B.MS(0.4, 1.1), B.S, B.T, B.SX, B.ISWAP, B.H, B.Y,
+                 cust("myS", [[1, 0], [0, I_]]), cust("mySX", [[(1 + I_) / 2, (1 - I_) / 2], [(1 - I_) / 2, (1 + I_) / 2]]),
+                 cust("myRX", [[sympy.cos(0.3), -I_ * sympy.sin(0.3)], [-I_ * sympy.sin(0.3), sympy.cos(0.3)]]),
+                 cust("myISWAP", [[1, 0, 0, 0], [0, 0, I_, 0], [0, I_, 0, 0], [0, 0, 0, 1]]), cust("reflect", [[0, 1], [1, 0]]), cust("ylike", [[0, -I_], [I_, 0]]),
+                 cust("rot", [[sympy.cos(0.3), -sympy.sin(0.3)], [sympy.sin(0.3), sympy.cos(0.3)]])]
+        M = lambda c: np.array(c.to_unitary(), dtype=complex)
+        for g in gates:
+            k = g.num_qubits
+            for wrap in (lambda x: x, lambda x: x.controlled(1), lambda x: x.dagger):
+                w = wrap(g)
+                qs = tuple(range(w.num_qubits))[::-1]
+                c = Circuit([w(*qs)], n_qubits=w.num_qubits)
+                U, V = M(c), M(c.inverse())
+                if not np.allclose(V, U.conj().T, atol=1e-9):
+                    return False, f"inverse of a circuit holding {w}: matrix differs from the conjugate transpose (max deviation {abs(V - U.conj().T).max():.3g})"
+                if not np.allclose(M(c + c.inverse()), np.eye(len(U)), atol=1e-9) or not np.allclose(M(c.inverse().inverse()), U, atol=1e-9):
+                    return False, f"circuit + inverse is not the identity / inverting twice is not the original for {w}"
+        return True, "ok"
     from orquestra.quantum.circuits import RX, create_layer_of_gates
     for n in (1, 2, 7, 64, 257, 2000):
         ps = np.arange(n).reshape(-1, 1) * 1e-3
